@@ -78,6 +78,19 @@ Fixpoint own_shares_grid_from (before after : list ibox) : list Q :=
 
 Definition own_shares_grid (bs : list ibox) : list Q := own_shares_grid_from [] bs.
 
+(* The inclusion-exclusion recursion of [uncovered] below, written on integer rectangles: the intersection of two
+   axis-aligned boxes is a box (possibly empty: x1 <= x0 or y1 <= y0, area 0) *)
+Definition ibox_inter (a b : ibox) : ibox :=
+  mkibox (Z.max (ix0 a) (ix0 b)) (Z.max (iy0 a) (iy0 b)) (Z.min (ix1 a) (ix1 b)) (Z.min (iy1 a) (iy1 b)).
+
+Definition ibox_area0 (b : ibox) : Z := Z.max 0 (ix1 b - ix0 b) * Z.max 0 (iy1 b - iy0 b).
+
+Fixpoint uncovered_rect (r : ibox) (others : list ibox) : Z :=
+  match others with
+  | [] => ibox_area0 r
+  | o :: rest => uncovered_rect r rest - uncovered_rect (ibox_inter r o) rest
+  end.
+
 Close Scope Z_scope.
 
 (* ------------------------------------------------------------------------------------------ *)
